@@ -1,8 +1,9 @@
 /-
 Props/C07.lean — property C07 "IPSet algebra and queries agree with plain set theory on
-addresses".  Property theorems only; lemmas in Lemmas/IPSetL1..L5.
+addresses".  Property theorems only; lemmas in Lemmas/IPSetL1..L10, IPSetDiff1..5.
 -/
 import NetaddrVerif.Lemmas.IPSetL10
+import NetaddrVerif.Lemmas.IPSetDiff5
 namespace NV.C07
 open NV NV.IPSet
 
@@ -30,6 +31,44 @@ theorem intersection_spec (s t : St) (hs : Inv s) (ht : Inv t) :
 /-- `A | B` (`union`) and `update(B)` -/
 theorem union_spec (s t : St) (hs : Inv s) (ht : Inv t) :
     Inv (union s t) ∧ ∀ u a, denS (union s t) u a ↔ denS s u a ∨ denS t u a := IPSet.union_spec s t hs ht
+
+/-- `A - B` (`difference`): for canonical operands (any mix of families) the result is
+    canonical and contains exactly the addresses of `A` that are not in `B`.  Covers the
+    two-cursor sweep, `_subtract` (gaps before, between and after the subtracted blocks),
+    `_iter_merged_ranges`, `iprange_to_cidrs` on every merged range, and the fact that whole
+    kept blocks and the blocks of the ranges never form a combinable pair. -/
+theorem difference_spec (s t : St) (hs : Inv s) (ht : Inv t) :
+    Inv (difference s t) ∧ ∀ ver a, denS (difference s t) ver a ↔ denS s ver a ∧ ¬ denS t ver a :=
+  IPSet.difference_spec s t hs ht
+
+/-- `A ^ B` (`symmetric_difference`): for canonical operands the result is canonical and
+    contains exactly the addresses that are in one operand and not in the other -/
+theorem symmetric_difference_spec (s t : St) (hs : Inv s) (ht : Inv t) :
+    Inv (symmetricDifference s t) ∧
+    ∀ ver a, denS (symmetricDifference s t) ver a ↔
+      (denS s ver a ∧ ¬ denS t ver a) ∨ (denS t ver a ∧ ¬ denS s ver a) :=
+  IPSet.symmetricDifference_spec s t hs ht
+
+/-- a concrete instance of the hypotheses, and what the two theorems say about it:
+    10.0.0.0/24 minus (and also xor) 10.0.0.128/25 keeps 10.0.0.1 and drops 10.0.0.129 -/
+example : Inv (newOfNet ⟨4, 0x0a000005, 24⟩) ∧ Inv (newOfNet ⟨4, 0x0a000080, 25⟩) :=
+  ⟨(newOfNet_spec _ (by simp [Net.WF, width])).1, (newOfNet_spec _ (by simp [Net.WF, width])).1⟩
+example : denS (difference (newOfNet ⟨4, 0x0a000005, 24⟩) (newOfNet ⟨4, 0x0a000080, 25⟩)) 4 0x0a000001 ∧
+    ¬ denS (difference (newOfNet ⟨4, 0x0a000005, 24⟩) (newOfNet ⟨4, 0x0a000080, 25⟩)) 4 0x0a000081 := by
+  have hA := newOfNet_spec ⟨4, 0x0a000005, 24⟩ (by simp [Net.WF, width])
+  have hB := newOfNet_spec ⟨4, 0x0a000080, 25⟩ (by simp [Net.WF, width])
+  have hD := (difference_spec _ _ hA.1 hB.1).2
+  rw [hD, hD, hA.2, hA.2, hB.2, hB.2]
+  unfold argDen
+  decide +kernel
+example : denS (symmetricDifference (newOfNet ⟨4, 0x0a000005, 24⟩) (newOfNet ⟨4, 0x0a000080, 25⟩)) 4 0x0a000001 ∧
+    ¬ denS (symmetricDifference (newOfNet ⟨4, 0x0a000005, 24⟩) (newOfNet ⟨4, 0x0a000080, 25⟩)) 4 0x0a000081 := by
+  have hA := newOfNet_spec ⟨4, 0x0a000005, 24⟩ (by simp [Net.WF, width])
+  have hB := newOfNet_spec ⟨4, 0x0a000080, 25⟩ (by simp [Net.WF, width])
+  have hD := (symmetric_difference_spec _ _ hA.1 hB.1).2
+  rw [hD, hD, hA.2, hA.2, hB.2, hB.2]
+  unfold argDen
+  decide +kernel
 
 /-- `isdisjoint` -/
 theorem isdisjoint_iff (s t : St) (hs : Inv s) (ht : Inv t) :
